@@ -46,7 +46,7 @@ ENGINE = "hypothesis @given over load histories (plain-data cases), harness orac
 # Confirmed defects that the generator steers around BY CONSTRUCTION (set to False after a repair):
 #   interp_multi  CollisionArray.interpolateCollisionArray scrambles every pair when >= 2 particles
 #                 are interpolated to a smaller grid (replays/C14/known_interp_multi.json).
-AVOID = {"interp_multi": True}
+AVOID = {"interp_multi": False}  # defect repaired in /repo (fix: commit 38ba7a6); class searched again
 if os.environ.get("VERIF_NO_AVOID"):  # testing aid: VERIF_NO_AVOID=1 ./run C14 quick  (e.g. on a patched tree)
     AVOID = {k: False for k in AVOID}
 
